@@ -1,9 +1,9 @@
 SPECIFICATION Spec
 CONSTANTS
-  P = {1, 2}
+  P = {1, 2, 3}
   D = {1, 2}
   MaxCrashes = 2
-  MaxDepth = 16
+  MaxDepth = 18
 VIEW View
 INVARIANT VersionLast
 INVARIANT Idempotent
